@@ -533,6 +533,11 @@ func checkC05(c *Ctx) {
 		case cbPkg + ".Builder.AddASN1OctetString":
 			if haveSig && s[sigVal.v] {
 				okSig = true
+				// exactly the signer's bytes: nothing prepended, padded or cut
+				if exact, decided := dv.exactBytes(arg, di.fr, sigVal, 0); decided && !exact {
+					okSig = false
+					bad = append(bad, "encryptedDigest is built from the signer's result but is not exactly it (bytes are added or removed)")
+				}
 			}
 		}
 	}
